@@ -92,8 +92,9 @@ fn main() -> Result<()> {
             let watch_option = arg_matches.is_present(cli::arg::WATCH).into();
             let termination_events = terminate_on_ctrlc()?;
 
-            let (target_actor_output_sender, target_actor_output_events) =
-                channel::bounded(crate::DEFAULT_CHANNEL_CAP);
+            // Unbounded: the relay loop below both drains this channel and feeds the (bounded) actor
+            // inboxes. If actors could block on it, a wide fan-in would deadlock the relay and the actors.
+            let (target_actor_output_sender, target_actor_output_events) = channel::unbounded();
             let mut target_actors =
                 TargetActors::new(targets, target_actor_output_sender, watch_option);
 
